@@ -12,7 +12,7 @@ FIRST_CHAR_SPLIT = [[[0, 0x1f]], [[0x20, 0x7f]], [[0x80, 0xffff]], [[0x10000, 0x
 
 
 def job_name(j):
-    s = '%s-%s-%s-v%s-N%d' % (j['fmt'], j['kind'], j['position'], j['version'], j['N'])
+    s = '%s-%s-%s-v%s-N%d' % (j['fmt'], j['kind'], j.get('position', 'all'), j['version'], j['N'])
     if j.get('multi'):
         s += '-multi'
     if j.get('split'):
@@ -24,7 +24,11 @@ def expand_split(jobs):
     out = []
     for j in jobs:
         if j['N'] >= 2 and j['fmt'] == 'zinc' and not j.get('split'):
+            from .textworker import ALPHABET
+            alpha = ALPHABET.get(j['kind'])
             for dom in FIRST_CHAR_SPLIT:
+                if alpha is not None and not any(lo <= dom[0][1] and hi >= dom[0][0] for lo, hi in alpha):
+                    continue        # the kind's alphabet has no character in this class
                 jj = dict(j)
                 jj['split'] = dom
                 out.append(jj)
@@ -73,6 +77,21 @@ def run_jobs(chk, jobs, module='vf.textworker', replay_fn='replay'):
         kw = dict(paths=res['paths'], aborted=res['aborted'], solver_checks=res['checks'], solver_s=res['solver_s'])
         if res.get('samples') and len(chk.samples) < 10:
             chk.samples.append({'job': name, 'path_model_payload': res['samples'][0]})
+        for f in (res.get('catalog_failures') or [])[:6]:
+            body = ('sys.path.insert(0, %r)\n'
+                    'import importlib\n'
+                    'tw = importlib.import_module(%r)\n'
+                    'job = %r\npayload = %r\n'
+                    'msg = getattr(tw, %r)(hszinc, job, payload)\n'
+                    'if msg is not None:\n'
+                    '    VIOLATED("%%s -- job %%r catalogue entry %%r" %% (msg, job, payload))\n'
+                    'HOLDS()\n') % (common.VERIF, module, j, [f['index'], f['position']], replay_fn)
+            what = '%s: catalogue value %s at %s: %s' % (name, f['value'], f['position'], f['what'][:160])
+            verdict = chk.candidate(name + '-cat%d' % f['index'], body, what, kf_key=j.get('kf_key'), model=f['value'])
+            chk.query(name + '-cat%d-%s' % (f['index'], f['position']), 'counterexample:' + verdict, 0.0, model=f['value'], message=f['what'][:200])
+            chk.samples.append({'job': name, 'catalogue_value': f['value'], 'position': f['position'], 'replay': verdict})
+        if res.get('catalog_failures'):
+            continue
         if 'cex' in res:
             payload = res['cex']['payload']
             body = ('sys.path.insert(0, %r)\n'
